@@ -1,7 +1,9 @@
 /- The worker loop with expiry (`KB.passLoop`) on a sorted store: for every key the ttl pass has to spare — not an
 event key, or an Event whose revision record names a revision above the timeout revision, or an Event whose
 revision record the pass did not remove — the records removed are the ones the ordinary compaction rules remove
-(`Deletable`), and a removed deletion marker leaves no older version behind (`TombClosed`). Used by C07Expire. -/
+(`Deletable`), and a removed deletion marker leaves no older version behind (`TombClosed`); an expired Event goes
+as a whole or not at all, under every failure mask (`pass_all_or_nothing`: the expiry batch of /repo 74218cc).
+Used by C07Expire / C07Atomic. -/
 import KB.Lemmas.Compact
 import KB.Lemmas.Pass
 namespace KB.ExpirePass
@@ -18,6 +20,7 @@ theorem workerStep_ccfg {c : WCfg} (hc : c.compact = true) (p : Prev) (r : Rec) 
 def actRaw : Act → Option Bytes
   | .del _ raw => some raw
   | .delcur _ _ raw => some raw
+  | .expire _ _ _ raw => some raw
   | _ => none
 
 theorem runDelete_lastFailed (mask : Nat → DelOutcome) (st : CompState) (a : Act) :
@@ -25,6 +28,7 @@ theorem runDelete_lastFailed (mask : Nat → DelOutcome) (st : CompState) (a : A
   cases a with
   | emit k v r => exact .inl rfl
   | panic => exact .inl rfl
+  | expire ik v vers raw => exact .inl rfl
   | del ik raw =>
     simp only [runDelete]
     split
@@ -88,10 +92,107 @@ theorem runDeletes_get_none_mono (mask : Nat → DelOutcome) (acts : List Act) (
       · rfl
       · exact hb
 
-theorem passLoop_get_none_mono (c : WCfg) (mask : Nat → DelOutcome) (rs : List Rec) (p : Prev) (live : Bytes)
-    (st : CompState) (h : Store.Sorted st.store) {b : Bytes} (hb : st.store.get b = none) :
-    (passLoop c mask p live st rs).2.store.get b = none := by
-  rw [passLoop_run]; exact runDeletes_get_none_mono mask _ st h hb
+/-! ### erasing a list of keys: what the expiry batch does to the store -/
+
+theorem eraseAll_sorted (l : List Bytes) {s : Store} (h : Store.Sorted s) : Store.Sorted (l.foldl Store.erase s) := by
+  induction l generalizing s with
+  | nil => exact h
+  | cons x xs ih => exact ih (Store.sorted_erase h x)
+
+theorem eraseAll_get (l : List Bytes) {s : Store} (h : Store.Sorted s) (b : Bytes) :
+    (l.foldl Store.erase s).get b = if b ∈ l then none else s.get b := by
+  induction l generalizing s with
+  | nil => simp
+  | cons x xs ih =>
+    simp only [List.foldl_cons, List.mem_cons]
+    rw [ih (Store.sorted_erase h x), Store.get_erase h]
+    by_cases h1 : b ∈ xs
+    · simp [h1]
+    · by_cases h2 : b = x
+      · simp [h2]
+      · simp [h1, h2]
+
+/-- the store after the expiry batch: untouched, or the revision record and all the collected versions gone -/
+theorem runExpire_store (mask : Nat → DelOutcome) (st : CompState) (ik v : Bytes) (vers : List Bytes) (raw : Bytes) :
+    (runExpire mask st ik v vers raw).store = st.store ∨
+      (runExpire mask st ik v vers raw).store = (ik :: vers).foldl Store.erase st.store := by
+  rcases runExpire_cases mask st ik v vers raw with ⟨_, e, _⟩ | ⟨_, _, _, _, e, _⟩ | ⟨_, _, e, _⟩
+  · exact .inl (by rw [e])
+  · exact .inr e
+  · exact .inl e
+
+theorem runExpire_sorted (mask : Nat → DelOutcome) (st : CompState) (ik v : Bytes) (vers : List Bytes) (raw : Bytes)
+    (h : Store.Sorted st.store) : Store.Sorted (runExpire mask st ik v vers raw).store := by
+  rcases runExpire_store mask st ik v vers raw with e | e
+  · rw [e]; exact h
+  · rw [e]; exact eraseAll_sorted _ h
+
+theorem runExpire_get_none_mono (mask : Nat → DelOutcome) (st : CompState) (ik v : Bytes) (vers : List Bytes)
+    (raw : Bytes) (h : Store.Sorted st.store) {b : Bytes} (hb : st.store.get b = none) :
+    (runExpire mask st ik v vers raw).store.get b = none := by
+  rcases runExpire_store mask st ik v vers raw with e | e
+  · rw [e]; exact hb
+  · rw [e, eraseAll_get _ h]; split
+    · rfl
+    · exact hb
+
+/-- a record the batch does not name stays as it is -/
+theorem runExpire_get_of_not_target (mask : Nat → DelOutcome) (st : CompState) (ik v : Bytes) (vers : List Bytes)
+    (raw : Bytes) (h : Store.Sorted st.store) {b : Bytes} (hb : b ∉ ik :: vers) :
+    (runExpire mask st ik v vers raw).store.get b = st.store.get b := by
+  rcases runExpire_store mask st ik v vers raw with e | e
+  · rw [e]
+  · rw [e, eraseAll_get _ h, if_neg hb]
+
+theorem runExpire_lastFailed (mask : Nat → DelOutcome) (st : CompState) (ik v : Bytes) (vers : List Bytes)
+    (raw : Bytes) :
+    (runExpire mask st ik v vers raw).lastFailed = st.lastFailed ∨ (runExpire mask st ik v vers raw).lastFailed = raw := by
+  rcases runExpire_cases mask st ik v vers raw with ⟨_, e, _⟩ | ⟨_, _, _, _, _, e, _⟩ | ⟨_, _, _, e, _⟩
+  · exact .inl (by rw [e])
+  · exact .inl e
+  · exact e
+
+theorem runActs_sorted (mask : Nat → DelOutcome) (acts : List Act) (st : CompState) (h : Store.Sorted st.store) :
+    Store.Sorted (runActs mask st acts).store := by
+  induction acts generalizing st with
+  | nil => exact h
+  | cons a l ih =>
+    rw [runActs_cons]
+    apply ih
+    cases a with
+    | expire ik v vers raw => exact runExpire_sorted mask st ik v vers raw h
+    | emit k v r => exact h
+    | panic => exact h
+    | del ik raw => exact runDeletes_sorted mask [.del ik raw] st h
+    | delcur ik v raw => exact runDeletes_sorted mask [.delcur ik v raw] st h
+
+theorem runActs_get_none_mono (mask : Nat → DelOutcome) (acts : List Act) (st : CompState)
+    (h : Store.Sorted st.store) {b : Bytes} (hb : st.store.get b = none) :
+    (runActs mask st acts).store.get b = none := by
+  induction acts generalizing st with
+  | nil => exact hb
+  | cons a l ih =>
+    rw [runActs_cons]
+    cases a with
+    | expire ik v vers raw =>
+      exact ih _ (runExpire_sorted mask st ik v vers raw h) (runExpire_get_none_mono mask st ik v vers raw h hb)
+    | emit k v r => exact ih _ h hb
+    | panic => exact ih _ h hb
+    | del ik raw =>
+      exact ih _ (runDeletes_sorted mask [.del ik raw] st h) (runDeletes_get_none_mono mask [.del ik raw] st h hb)
+    | delcur ik v raw =>
+      exact ih _ (runDeletes_sorted mask [.delcur ik v raw] st h)
+        (runDeletes_get_none_mono mask [.delcur ik v raw] st h hb)
+
+theorem passLoop_get_none_mono (c : WCfg) (mask : Nat → DelOutcome) (snap : List Rec) (rs : List Rec) (p : Prev)
+    (live gone : Bytes) (st : CompState) (h : Store.Sorted st.store) {b : Bytes} (hb : st.store.get b = none) :
+    (passLoop c mask snap p live gone st rs).2.store.get b = none := by
+  rw [passLoop_run]; exact runActs_get_none_mono mask _ st h hb
+
+theorem passLoop_sorted (c : WCfg) (mask : Nat → DelOutcome) (snap : List Rec) (rs : List Rec) (p : Prev)
+    (live gone : Bytes) (st : CompState) (h : Store.Sorted st.store) :
+    Store.Sorted (passLoop c mask snap p live gone st rs).2.store := by
+  rw [passLoop_run]; exact runActs_sorted mask _ st h
 
 /-- the three ways a compare-and-delete can go -/
 theorem runDelete_delcur_cases (mask : Nat → DelOutcome) (st : CompState) (ik v : Bytes) {raw : Bytes}
@@ -252,32 +353,23 @@ structure PInv (recs : List Rec) (c : WCfg) (prot : Bytes → Bool) (done rs : L
 section steps
 variable {recs : List Rec} {mask : Nat → DelOutcome} {c : WCfg} {prot : Bytes → Bool}
 
-/-- a step on a record of an UNPROTECTED key, whatever it does to records of that key -/
-theorem step_unprot (hs : SortedRecs recs) (hw : WellKeyed recs)
+/-- a step on a record of an UNPROTECTED key, whatever it does to records of that key: any new state that leaves the
+records of the protected keys as they are -/
+theorem step_unprot_gen (hs : SortedRecs recs)
     (hk : ∀ r ∈ recs, Alphabet r.key ∧ r.rev < 2 ^ 64)
     {done rs : List Rec} {r : Rec} (hsplit : recs = done ++ r :: rs) (hr : prot r.key = false)
     {p : Prev} {live : Bytes} {st : CompState} (hI : PInv recs c prot done (r :: rs) p live st)
-    {acts : List Act} {p' : Prev} {live' : Bytes}
+    {st' : CompState} {p' : Prev} {live' : Bytes}
     (hp' : p' = p ∨ p' = ⟨r.key, r.rev, r.val⟩)
-    (hacts : ∀ a ∈ acts, (∀ raw, actRaw a = some raw → raw = r.key) ∧
-      (∀ ik, actTarget a = some ik → ∃ n, n < 2 ^ 64 ∧ ik = encode r.key n))
+    (hso : Store.Sorted st'.store)
+    (hagree : ∀ t ∈ pf prot recs, st'.store.get t.ik = st.store.get t.ik)
+    (hlf : st'.lastFailed = st.lastFailed ∨ st'.lastFailed = r.key)
     (hl1 : r.rev ≠ 0 → live' = live) :
-    PInv recs c prot (done ++ [r]) rs p' live' (runDeletes mask st acts) := by
+    PInv recs c prot (done ++ [r]) rs p' live' st' := by
   have hrm : r ∈ recs := by rw [hsplit]; simp
   have hpwall : (done ++ r :: rs).Pairwise recLt := hsplit ▸ hs
   have hpw' := List.pairwise_append.1 hpwall
   have hpw : (r :: rs).Pairwise recLt := hpw'.2.1
-  have hsorted := hI.ci.1
-  -- no action touches a record of a protected key
-  have hagree : ∀ t ∈ pf prot recs, (runDeletes mask st acts).store.get t.ik = st.store.get t.ik := by
-    intro t ht
-    apply runDeletes_get_of_not_target mask acts st hsorted
-    intro a ha htgt
-    obtain ⟨n, hn, e⟩ := (hacts a ha).2 _ htgt
-    have htm := mem_pf.1 ht
-    rw [hw t htm.1] at e
-    have := (encode_inj (hk t htm.1).2 hn e).1
-    rw [this, hr] at htm; exact absurd htm.2 (by decide)
   -- nothing to come of a protected key has the key of the new `prev`
   have hnone : ¬ ∃ x ∈ pf prot rs, x.key = p'.key := by
     rintro ⟨x, hx, hxk⟩
@@ -310,22 +402,71 @@ theorem step_unprot (hs : SortedRecs recs) (hw : WellKeyed recs)
   · rcases hp' with e | e
     · rw [e]; exact hI.p64
     · rw [e]; exact (hk r hrm).2
-  · refine ⟨runDeletes_sorted mask acts st hsorted, ?_, fun h => absurd h hnone⟩
+  · refine ⟨hso, ?_, fun h => absurd h hnone⟩
     intro t ht hget htomb hpos w hw' hwk h0 hlt
     rw [hagree w hw']
     rw [hagree t ht] at hget
     exact hI.ci.2.1 t ht hget htomb hpos w hw' hwk h0 hlt
   · exact liveInv_step hpwall hI.lv hl1 (fun _ h => by rw [hr] at h; exact absurd h (by decide))
-  · rcases runDeletes_lastFailed mask acts st with h | ⟨a, ha, h⟩
+  · rcases hlf with h | h
     · rw [h]
       rcases hI.lf with h' | ⟨d, hd, h'⟩
       · exact .inl h'
       · exact .inr ⟨d, by simp [hd], h'⟩
-    · exact .inr ⟨r, by simp, ((hacts a ha).1 _ h).symm⟩
+    · exact .inr ⟨r, by simp, h.symm⟩
   · intro d hd hget
     rw [hagree d hd] at hget
     exact hI.dl d hd hget
 
+/-- … in particular the single-record deletes of a step on a record of an UNPROTECTED key -/
+theorem step_unprot (hs : SortedRecs recs) (hw : WellKeyed recs)
+    (hk : ∀ r ∈ recs, Alphabet r.key ∧ r.rev < 2 ^ 64)
+    {done rs : List Rec} {r : Rec} (hsplit : recs = done ++ r :: rs) (hr : prot r.key = false)
+    {p : Prev} {live : Bytes} {st : CompState} (hI : PInv recs c prot done (r :: rs) p live st)
+    {acts : List Act} {p' : Prev} {live' : Bytes}
+    (hp' : p' = p ∨ p' = ⟨r.key, r.rev, r.val⟩)
+    (hacts : ∀ a ∈ acts, (∀ raw, actRaw a = some raw → raw = r.key) ∧
+      (∀ ik, actTarget a = some ik → ∃ n, n < 2 ^ 64 ∧ ik = encode r.key n))
+    (hl1 : r.rev ≠ 0 → live' = live) :
+    PInv recs c prot (done ++ [r]) rs p' live' (runDeletes mask st acts) := by
+  have hsorted := hI.ci.1
+  apply step_unprot_gen hs hk hsplit hr hI hp' (runDeletes_sorted mask acts st hsorted) ?_ ?_ hl1
+  · -- no action touches a record of a protected key
+    intro t ht
+    apply runDeletes_get_of_not_target mask acts st hsorted
+    intro a ha htgt
+    obtain ⟨n, hn, e⟩ := (hacts a ha).2 _ htgt
+    have htm := mem_pf.1 ht
+    rw [hw t htm.1] at e
+    have := (encode_inj (hk t htm.1).2 hn e).1
+    rw [this, hr] at htm; exact absurd htm.2 (by decide)
+  · rcases runDeletes_lastFailed mask acts st with h | ⟨a, ha, h⟩
+    · exact .inl h
+    · exact .inr ((hacts a ha).1 _ h)
+
+/-- the expiry batch at the revision record of an UNPROTECTED Event: whether it goes through or not, the records of
+the protected keys stay as they are -/
+theorem step_unprot_expire (hs : SortedRecs recs) (hw : WellKeyed recs)
+    (hk : ∀ r ∈ recs, Alphabet r.key ∧ r.rev < 2 ^ 64)
+    {done rs : List Rec} {r : Rec} (hsplit : recs = done ++ r :: rs) (hr : prot r.key = false) (hr0 : r.rev = 0)
+    {p : Prev} {live : Bytes} {st : CompState} (hI : PInv recs c prot done (r :: rs) p live st) (live' : Bytes) :
+    PInv recs c prot (done ++ [r]) rs p live' (runExpire mask st r.ik r.val (versionsOf r.key recs) r.key) := by
+  have hsorted := hI.ci.1
+  have hrm : r ∈ recs := by rw [hsplit]; simp
+  apply step_unprot_gen hs hk hsplit hr hI (.inl rfl) (runExpire_sorted mask st _ _ _ _ hsorted) ?_
+    (runExpire_lastFailed mask st _ _ _ _) (fun h => absurd hr0 h)
+  intro t ht
+  apply runExpire_get_of_not_target mask st _ _ _ _ hsorted
+  have htm := mem_pf.1 ht
+  intro hmem
+  have hkey : t.key = r.key := by
+    rcases List.mem_cons.1 hmem with e | e
+    · rw [hw t htm.1, hw r hrm] at e
+      exact (encode_inj (hk t htm.1).2 (hk r hrm).2 e).1
+    · obtain ⟨w, hwm, hwk, _, _, e'⟩ := mem_versionsOf.1 e
+      rw [hw t htm.1, hw w hwm] at e'
+      rw [← hwk]; exact ((encode_inj (hk w hwm).2 (hk t htm.1).2 e').1).symm
+  rw [hkey, hr] at htm; exact absurd htm.2 (by decide)
 
 /-- a step of the ordinary rules on a record of a PROTECTED key: the invariants of C07's loop, on the protected
 records -/
@@ -443,37 +584,36 @@ theorem prot_event_facts (hs : SortedRecs recs) {fin : Store} (hP : ProtOK c pro
 /-- **The loop with expiry, from any point on.** On a sorted store, with `prot` a set of keys whose Events have a
 revision record that is young or still in the final store `fin`: what the pass removes of the protected keys is
 what the ordinary compaction rules remove (`Deletable`), and a removed deletion marker of a protected key leaves no
-older version behind — under every failure mask. -/
+older version behind — under every failure mask. (`gone`, the Event the worker removed as a whole, is never a
+protected key: the revision record of a protected Event outlives the pass.) -/
 theorem pass_inv (hs : SortedRecs recs) (hw : WellKeyed recs)
     (hk : ∀ r ∈ recs, Alphabet r.key ∧ r.rev < 2 ^ 64) (hne : ∀ r ∈ recs, r.key ≠ [])
     (hcomp : c.compact = true) (hon : c.supportTTL = false) (hT : c.timeout ≠ 0)
     {fin : Store} (hP : ProtOK c prot fin recs) (rs : List Rec) :
-    ∀ (done : List Rec) (p : Prev) (live : Bytes) (st : CompState), recs = done ++ rs →
-      PInv recs c prot done rs p live st → (passLoop c mask p live st rs).2.store = fin →
+    ∀ (done : List Rec) (p : Prev) (live gone : Bytes) (st : CompState), recs = done ++ rs →
+      PInv recs c prot done rs p live st → (gone = [] ∨ prot gone = false) →
+      (passLoop c mask recs p live gone st rs).2.store = fin →
       TombClosed (pf prot recs) fin ∧ ∀ d ∈ pf prot recs, fin.get d.ik = none → Deletable c.R recs d := by
   induction rs with
   | nil =>
-    intro done p live st _ hI hfin
+    intro done p live gone st _ hI _ hfin
     simp only [passLoop] at hfin
     subst hfin
     exact ⟨hI.ci.2.1, hI.dl⟩
   | cons r rs ih =>
-    intro done p live st hsplit hI hfin
+    intro done p live gone st hsplit hI hG hfin
     have hrm : r ∈ recs := by rw [hsplit]; simp
     have hsplit' : recs = (done ++ [r]) ++ rs := by rw [hsplit]; simp
     have hrik : r.ik = encode r.key r.rev := hw r hrm
     rw [passLoop_cons] at hfin
-    -- the delete call of an expiry step is about `r`
-    have hexp : ∀ a : Act, (a = .panic ∨ a = .delcur r.ik r.val r.key ∨ a = .del r.ik r.key) →
+    -- the delete call of an expiry step on a single record is about `r`
+    have hexp : ∀ a : Act, (a = .panic ∨ a = .del r.ik r.key) →
         ∀ a' ∈ [a], (∀ raw, actRaw a' = some raw → raw = r.key) ∧
           (∀ ik, actTarget a' = some ik → ∃ n, n < 2 ^ 64 ∧ ik = encode r.key n) := by
       intro a ha a' ha'
       simp only [List.mem_singleton] at ha'; subst ha'
-      rcases ha with rfl | rfl | rfl
+      rcases ha with rfl | rfl
       · exact ⟨fun _ h => (by cases h), fun _ h => (by cases h)⟩
-      · refine ⟨fun raw h => ?_, fun ik h => ⟨r.rev, (hk r hrm).2, ?_⟩⟩
-        · simp only [actRaw, Option.some.injEq] at h; exact h.symm
-        · simp only [actTarget, Option.some.injEq] at h; rw [← h, hrik]
       · refine ⟨fun raw h => ?_, fun ik h => ⟨r.rev, (hk r hrm).2, ?_⟩⟩
         · simp only [actRaw, Option.some.injEq] at h; exact h.symm
         · simp only [actTarget, Option.some.injEq] at h; rw [← h, hrik]
@@ -487,76 +627,90 @@ theorem pass_inv (hs : SortedRecs recs) (hw : WellKeyed recs)
       · exact ⟨p.rev, hI.p64, e⟩
     by_cases hr : prot r.key = true
     · -- a record of a protected key
-      rcases expiry_cases c live r with h0 | ⟨_, _, hev, ⟨h0, hr0, hlen⟩ | ⟨h0, hr0, hlen, hle⟩ |
-          ⟨h0, hr0, hlen, hgt⟩ | ⟨h0, hrne, hle, hnl⟩⟩
+      rcases expiry_cases c live gone r with h0 | ⟨_, _, hev, ⟨h0, hr0, hlen⟩ | ⟨h0, hr0, hlen, hle⟩ |
+          ⟨h0, hr0, hlen, hgt⟩ | ⟨h0, hrne, hg⟩ | ⟨h0, hrne, hle, hnl, _⟩⟩
       · -- not expired, nothing remembered: the ordinary rules
         rw [h0] at hfin
         simp only [workerStep_ccfg hcomp] at hfin
-        exact ih _ _ _ _ hsplit' (step_prot_ord hs hw hk hne hsplit hr hI (fun _ => rfl)
-          (fun hr0 hev => absurd h0 (expiry_idx_ne_no hon hT hev hr0 live))) hfin
+        exact ih _ _ _ _ _ hsplit' (step_prot_ord hs hw hk hne hsplit hr hI (fun _ => rfl)
+          (fun hr0 hev => absurd h0 (expiry_idx_ne_no hon hT hev hr0 live gone))) hG hfin
       · -- a protected Event has a well-formed revision record
         have := ((prot_event_facts hs hP hsplit hr hev hI).1 hr0).1
         omega
-      · -- expired revision record of a protected Event: it is still there at the end, so its compare-and-delete
-        -- returned an error and the key is remembered
+      · -- expired revision record of a protected Event: it is still there at the end, so its batch returned an
+        -- error and the key is remembered as alive
         rw [h0] at hfin
         simp only at hfin
         have hsurv : fin.get r.ik ≠ none := by
           rcases ((prot_event_facts hs hP hsplit hr hev hI).1 hr0).2 with h | h
           · omega
           · exact h
-        rcases runDelete_delcur_cases mask st r.ik r.val (hne r hrm) with ⟨h1, _, _⟩ | ⟨_, _, h3⟩ | ⟨_, h2, h3⟩
+        rcases runExpire_cases mask st r.ik r.val (versionsOf r.key recs) r.key with
+          ⟨h1, _, _⟩ | ⟨_, _, _, _, h3, _⟩ | ⟨_, h2, h3, h4, _⟩
         · -- `lastCompactFailedRawKey` cannot be the key of a record that was not reached yet
           exfalso
+          have h1' := (skipped_iff.1 h1).2
           rcases hI.lf with h | ⟨d, hd, h⟩
-          · exact hne r hrm (h1 ▸ h)
+          · exact hne r hrm (h1' ▸ h)
           · have hpwall : (done ++ r :: rs).Pairwise recLt := hsplit ▸ hs
             rcases (List.pairwise_append.1 hpwall).2.2 d hd r (by simp) with hc | ⟨_, hc⟩
-            · rw [h, h1] at hc; exact cmp_irrefl _ hc
+            · rw [h, h1'] at hc; exact cmp_irrefl _ hc
             · omega
         · exfalso
           apply hsurv
           rw [← hfin]
-          apply passLoop_get_none_mono c mask rs _ _ _ (h3 ▸ Store.sorted_erase hI.ci.1 _)
-          rw [h3, Store.get_erase hI.ci.1]; simp
+          apply passLoop_get_none_mono c mask recs rs _ _ _ _ (runExpire_sorted mask st _ _ _ _ hI.ci.1)
+          rw [h3]
+          have := eraseAll_get (r.ik :: versionsOf r.key recs) hI.ci.1 r.ik
+          simp only [List.foldl_cons, List.mem_cons, true_or, if_true] at this
+          exact this
         · rw [h2] at hfin
           simp only [if_true] at hfin
-          refine ih _ _ _ _ hsplit' (step_prot_idx hs hsplit hr hr0 hI h3 ?_ rfl) hfin
-          rcases runDelete_lastFailed mask st (.delcur r.ik r.val r.key) with h | h
-          · exact .inl h
-          · simp only [actRaw, Option.some.injEq] at h; exact .inr h.symm
+          refine ih _ _ _ _ _ hsplit' (step_prot_idx hs hsplit hr hr0 hI h3 h4 rfl) hG hfin
       · -- young revision record: the key is remembered, then the ordinary rules
         rw [h0] at hfin
         simp only [workerStep_ccfg hcomp] at hfin
-        exact ih _ _ _ _ hsplit' (step_prot_ord hs hw hk hne hsplit hr hI (fun h => absurd hr0 h)
-          (fun _ _ => rfl)) hfin
+        exact ih _ _ _ _ _ hsplit' (step_prot_ord hs hw hk hne hsplit hr hI (fun h => absurd hr0 h)
+          (fun _ _ => rfl)) hG hfin
+      · -- the gone Event is never a protected one
+        exfalso
+        rcases hG with h | h
+        · exact hne r hrm (hg.trans h)
+        · rw [← hg, hr] at h; cases h
       · -- a version of a protected Event never expires: its key is remembered
         exact absurd ((prot_event_facts hs hP hsplit hr hev hI).2 hrne).symm hnl
     · -- a record of an unprotected key: whatever happens to it leaves the protected records alone
       have hr : prot r.key = false := by simpa using hr
-      rcases expiry_cases c live r with h0 | ⟨_, _, hev, ⟨h0, hr0, hlen⟩ | ⟨h0, hr0, hlen, hle⟩ |
-          ⟨h0, hr0, hlen, hgt⟩ | ⟨h0, hrne, hle, hnl⟩⟩
+      rcases expiry_cases c live gone r with h0 | ⟨_, _, hev, ⟨h0, hr0, hlen⟩ | ⟨h0, hr0, hlen, hle⟩ |
+          ⟨h0, hr0, hlen, hgt⟩ | ⟨h0, hrne, hg⟩ | ⟨h0, hrne, hle, hnl, _⟩⟩
       · rw [h0] at hfin
         simp only [workerStep_ccfg hcomp] at hfin
-        exact ih _ _ _ _ hsplit' (step_unprot hs hw hk hsplit hr hI (workerStep_snd_cases p r) hord
-          (fun _ => rfl)) hfin
+        exact ih _ _ _ _ _ hsplit' (step_unprot hs hw hk hsplit hr hI (workerStep_snd_cases p r) hord
+          (fun _ => rfl)) hG hfin
       · rw [h0] at hfin
         simp only at hfin
         have hstep := step_unprot (mask := mask) (acts := [.panic]) (live' := live) hs hw hk hsplit hr hI (.inl rfl)
           (hexp _ (.inl rfl)) (fun _ => rfl)
-        exact ih _ p live st hsplit' hstep hfin
+        exact ih _ p live gone st hsplit' hstep hG hfin
       · rw [h0] at hfin
         simp only at hfin
-        exact ih _ _ _ _ hsplit' (step_unprot (acts := [.delcur r.ik r.val r.key]) hs hw hk hsplit hr hI
-          (.inl rfl) (hexp _ (.inr (.inl rfl))) (fun h => absurd hr0 h)) hfin
+        refine ih _ _ _ _ _ hsplit' (step_unprot_expire hs hw hk hsplit hr hr0 hI _) ?_ hfin
+        split
+        · exact hG
+        · exact .inr hr
       · rw [h0] at hfin
         simp only [workerStep_ccfg hcomp] at hfin
-        exact ih _ _ _ _ hsplit' (step_unprot hs hw hk hsplit hr hI (workerStep_snd_cases p r) hord
-          (fun h => absurd hr0 h)) hfin
+        exact ih _ _ _ _ _ hsplit' (step_unprot hs hw hk hsplit hr hI (workerStep_snd_cases p r) hord
+          (fun h => absurd hr0 h)) hG hfin
       · rw [h0] at hfin
         simp only at hfin
-        exact ih _ _ _ _ hsplit' (step_unprot (acts := [.del r.ik r.key]) hs hw hk hsplit hr hI
-          (.inl rfl) (hexp _ (.inr (.inr rfl))) (fun _ => rfl)) hfin
+        have hstep := step_unprot (mask := mask) (acts := []) (live' := live) hs hw hk hsplit hr hI (.inl rfl)
+          (fun _ h => by simp at h) (fun _ => rfl)
+        exact ih _ p live gone st hsplit' hstep hG hfin
+      · rw [h0] at hfin
+        simp only at hfin
+        exact ih _ _ _ _ _ hsplit' (step_unprot (acts := [.del r.ik r.key]) hs hw hk hsplit hr hI
+          (.inl rfl) (hexp _ (.inr rfl)) (fun _ => rfl)) hG hfin
 
 
 /-- One worker over a sorted store, from the start (`passRun`). -/
@@ -570,10 +724,12 @@ theorem passRun_inv (hs : SortedRecs recs) (hw : WellKeyed recs)
   have hinit : ∀ t ∈ pf prot recs, (encodeStore recs).get t.ik ≠ none := by
     intro t ht h
     rw [hw t (pf_sub ht), encodeStore_get hs hk (pf_sub ht)] at h; cases h
-  apply pass_inv hs hw hk hne hcomp hon hT hP recs [] {} [] { store := encodeStore recs, lastFailed := [] } rfl
+  rw [passRun_eq] at hP ⊢
+  apply pass_inv hs hw hk hne hcomp hon hT hP recs [] {} [] [] { store := encodeStore recs, lastFailed := [] } rfl
   · refine ⟨prevBefore_init _, fun _ h => by simp [pf] at h, by decide,
       ⟨encodeStore_sorted hs hk, fun t ht hget => absurd hget (hinit t ht), fun _ => .inr (closed_zero _ _ _)⟩,
       fun _ _ _ _ _ ⟨_, hi, _⟩ => by simp at hi, .inl rfl, fun d hd hget => absurd hget (hinit d hd)⟩
+  · exact .inl rfl
   · rfl
 
 end steps
@@ -675,18 +831,20 @@ theorem workerStep_rev_cases (c : WCfg) (p : Prev) (r : Rec) :
   all_goals first | exact .inl rfl | exact .inr rfl
 
 theorem workerStep_mem (c : WCfg) (p : Prev) (r : Rec) {a : Act} (ha : a ∈ (workerStep c p r).1) :
-    a ∈ emitPrev p ∨ (a = .del (encode p.key p.rev) p.key ∧ r.key = p.key) ∨ a = .del r.ik r.key ∨
+    a ∈ emitPrev p ∨ (a = .del (encode p.key p.rev) p.key ∧ r.key = p.key ∧ 0 < p.rev) ∨ a = .del r.ik r.key ∨
       a = .delcur r.ik r.val r.key := by
   have h1 : ∀ a, a ∈ (if r.key != p.key then emitPrev p
         else if c.compact && decide (p.rev > 0) then [Act.del (encode p.key p.rev) p.key] else []) →
-      a ∈ emitPrev p ∨ (a = .del (encode p.key p.rev) p.key ∧ r.key = p.key) := by
+      a ∈ emitPrev p ∨ (a = .del (encode p.key p.rev) p.key ∧ r.key = p.key ∧ 0 < p.rev) := by
     intro a ha
     split at ha
     · exact .inl ha
     · rename_i hkey
       have hkey : r.key = p.key := by simpa using hkey
       split at ha
-      · simp at ha; exact .inr ⟨ha, hkey⟩
+      · rename_i hc
+        simp only [Bool.and_eq_true, decide_eq_true_eq] at hc
+        simp at ha; exact .inr ⟨ha, hkey, hc.2⟩
       · simp at ha
   have h2 : ∀ a, a ∈ (if c.compact && isTomb r.val then [Act.del r.ik r.key] else []) → a = .del r.ik r.key := by
     intro a ha
@@ -721,19 +879,20 @@ theorem workerStep_targets_key (c : WCfg) (p : Prev) (r : Rec) (hr64 : r.rev < 2
     (hrik : r.ik = encode r.key r.rev) :
     ∀ a ∈ (workerStep c p r).1, ∀ ik, actTarget a = some ik → ∃ n, n < 2 ^ 64 ∧ ik = encode r.key n := by
   intro a ha ik h
-  rcases workerStep_mem c p r ha with hn | ⟨rfl, hkey⟩ | rfl | rfl
+  rcases workerStep_mem c p r ha with hn | ⟨rfl, hkey, _⟩ | rfl | rfl
   · rw [emitPrev_target hn] at h; cases h
   · simp only [actTarget, Option.some.injEq] at h; exact ⟨p.rev, hp64, by rw [← h, hkey]⟩
   · simp only [actTarget, Option.some.injEq] at h; exact ⟨r.rev, hr64, by rw [← h, hrik]⟩
   · simp only [actTarget, Option.some.injEq] at h; exact ⟨r.rev, hr64, by rw [← h, hrik]⟩
 
-/-! ### an expired Event goes as a whole when every delete call succeeds -/
+/-! ### an expired Event goes as a whole when every call succeeds -/
 
 theorem runDelete_ok_lastFailed {mask : Nat → DelOutcome} (hok : ∀ i, mask i = .ok) (st : CompState) (a : Act) :
     (runDelete mask st a).lastFailed = st.lastFailed := by
   cases a with
   | emit k v r => rfl
   | panic => rfl
+  | expire ik v vers raw => rfl
   | del ik raw => simp only [runDelete, hok]; split <;> rfl
   | delcur ik v raw =>
     simp only [runDelete, hok]
@@ -747,163 +906,402 @@ theorem runDeletes_ok_lastFailed {mask : Nat → DelOutcome} (hok : ∀ i, mask 
   | nil => rfl
   | cons a l ih => rw [runDeletes_cons, ih, runDelete_ok_lastFailed hok]
 
-/-- the invariant of the loop for the records of the expired Event `k` -/
-structure WInv (k : Bytes) (done rs : List Rec) (p : Prev) (live : Bytes) (st : CompState) : Prop where
+theorem runExpire_ok_lastFailed {mask : Nat → DelOutcome} (hok : ∀ i, mask i = .ok) (st : CompState)
+    (ik v : Bytes) (vers : List Bytes) (raw : Bytes) :
+    (runExpire mask st ik v vers raw).lastFailed = st.lastFailed := by
+  simp only [runExpire, hok]
+  split
+  · rfl
+  · split <;> rfl
+
+/-- every record of `k` in the snapshot is named by the expiry batch made at `k`'s revision record `i` -/
+theorem mem_batch_of_key (hs : SortedRecs recs) {k : Bytes} {i : Rec} (hi : i ∈ recs) (hik : i.key = k)
+    (hi0 : i.rev = 0) (hmax : ∀ w ∈ recs, w.key = k → w.rev < 2 ^ 64 - 1) {w : Rec} (hwm : w ∈ recs)
+    (hwk : w.key = k) : w.ik ∈ i.ik :: versionsOf k recs := by
+  by_cases h0 : w.rev = 0
+  · have : w = i := recs_unique hs hwm hi (hwk.trans hik.symm) (by omega)
+    subst this; simp
+  · exact List.mem_cons_of_mem _ (mem_versionsOf.2 ⟨w, hwm, hwk, h0, hmax w hwm hwk, rfl⟩)
+
+/-- the keys an expiry batch names belong to the raw key it is made for -/
+theorem batch_keys (hw : WellKeyed recs) (hk : ∀ r ∈ recs, Alphabet r.key ∧ r.rev < 2 ^ 64)
+    {r : Rec} (hrm : r ∈ recs) {b : Bytes} (hb : b ∈ r.ik :: versionsOf r.key recs) :
+    ∃ n, n < 2 ^ 64 ∧ b = encode r.key n := by
+  rcases List.mem_cons.1 hb with e | e
+  · exact ⟨r.rev, (hk r hrm).2, by rw [e, hw r hrm]⟩
+  · obtain ⟨w, hwm, hwk, _, _, e'⟩ := mem_versionsOf.1 e
+    exact ⟨w.rev, (hk w hwm).2, by rw [← e', hw w hwm, hwk]⟩
+
+/-- the invariant of the loop for the records of the expired Event `k`, every call succeeding: either all of them
+are gone (the batch at the revision record went through), or the pass has not yet reached the revision record (or
+there is none) and removes the versions one by one -/
+structure WInv (recs : List Rec) (k : Bytes) (done rs : List Rec) (p : Prev) (live gone : Bytes) (st : CompState) :
+    Prop where
   lf : st.lastFailed = []
   so : Store.Sorted st.store
-  gone : ∀ w ∈ done, w.key = k → st.store.get w.ik = none
-  there : ∀ w ∈ rs, w.key = k → st.store.get w.ik = some w.val
-  lv : live ≠ k
   p64 : p.rev < 2 ^ 64
+  alt : (∀ w ∈ recs, w.key = k → st.store.get w.ik = none) ∨
+    ((∀ w ∈ done, w.key = k → st.store.get w.ik = none) ∧
+     (∀ w ∈ rs, w.key = k → st.store.get w.ik = some w.val) ∧ live ≠ k ∧ gone ≠ k)
 
 section whole
 variable {recs : List Rec} {mask : Nat → DelOutcome} {c : WCfg}
 
-/-- a step whose deletes are all about another raw key -/
-theorem winv_other (hw : WellKeyed recs) (hk : ∀ r ∈ recs, Alphabet r.key ∧ r.rev < 2 ^ 64)
-    (hok : ∀ i, mask i = .ok) {k : Bytes} {done rs : List Rec} {r : Rec} (hsplit : recs = done ++ r :: rs)
-    (hrk : r.key ≠ k) {p : Prev} {live : Bytes} {st : CompState} (hI : WInv k done (r :: rs) p live st)
-    {acts : List Act} {p' : Prev} {live' : Bytes} (hp' : p'.rev < 2 ^ 64) (hl : live' = live ∨ live' = r.key)
-    (hacts : ∀ a ∈ acts, ∀ ik, actTarget a = some ik → ∃ n, n < 2 ^ 64 ∧ ik = encode r.key n) :
-    WInv k (done ++ [r]) rs p' live' (runDeletes mask st acts) := by
-  have hnt : ∀ w ∈ recs, w.key = k → ∀ a ∈ acts, actTarget a ≠ some w.ik := by
-    intro w hwm hwk a ha htgt
-    obtain ⟨n, hn, e⟩ := hacts a ha _ htgt
-    rw [hw w hwm] at e
-    have e1 := (encode_inj (hk w hwm).2 hn e).1
-    exact hrk (e1.symm.trans hwk)
-  refine ⟨by rw [runDeletes_ok_lastFailed hok]; exact hI.lf, runDeletes_sorted mask acts st hI.so, ?_, ?_, ?_, hp'⟩
-  · intro w hwd hwk
-    rcases List.mem_append.1 hwd with h | h
-    · exact runDeletes_get_none_mono mask acts st hI.so (hI.gone w h hwk)
-    · simp only [List.mem_singleton] at h; subst h; exact absurd hwk hrk
-  · intro w hwr hwk
-    rw [runDeletes_get_of_not_target mask acts st hI.so (hnt w (by rw [hsplit]; simp [hwr]) hwk)]
-    exact hI.there w (List.mem_cons_of_mem _ hwr) hwk
-  · rcases hl with h | h
-    · rw [h]; exact hI.lv
-    · rw [h]; exact hrk
-
-/-- the step on a record of `k` itself: its delete call succeeds -/
-theorem winv_self (hs : SortedRecs recs) (hw : WellKeyed recs)
-    (hk : ∀ r ∈ recs, Alphabet r.key ∧ r.rev < 2 ^ 64)
+/-- a step that names only keys `encode r.key n` of another raw key, or — once everything of `k` is gone — any step -/
+theorem winv_step (hw : WellKeyed recs) (hk : ∀ r ∈ recs, Alphabet r.key ∧ r.rev < 2 ^ 64)
     {k : Bytes} {done rs : List Rec} {r : Rec} (hsplit : recs = done ++ r :: rs)
-    {p : Prev} {live : Bytes} {st st' : CompState} (hI : WInv k done (r :: rs) p live st)
-    (hlf : st'.lastFailed = st.lastFailed) (hst : st'.store = st.store.erase r.ik) :
-    WInv k (done ++ [r]) rs p live st' := by
-  have hrm : r ∈ recs := by rw [hsplit]; simp
-  have hpw : (r :: rs).Pairwise recLt := by rw [hsplit] at hs; exact (List.pairwise_append.1 hs).2.1
-  refine ⟨hlf ▸ hI.lf, hst ▸ Store.sorted_erase hI.so _, ?_, ?_, hI.lv, hI.p64⟩
-  · intro w hwd hwk
-    rw [hst, Store.get_erase hI.so]
-    split
-    · rfl
-    · rcases List.mem_append.1 hwd with h | h
-      · exact hI.gone w h hwk
-      · simp only [List.mem_singleton] at h; subst h; rename_i hne; exact absurd rfl hne
-  · intro w hwr hwk
-    have hwm : w ∈ recs := by rw [hsplit]; simp [hwr]
-    have hne : w.ik ≠ r.ik := by
-      intro e
-      rw [hw w hwm, hw r hrm] at e
-      obtain ⟨e1, e2⟩ := encode_inj (hk w hwm).2 (hk r hrm).2 e
-      rcases (List.pairwise_cons.1 hpw).1 w hwr with hc | ⟨_, hc⟩
-      · rw [e1] at hc; exact cmp_irrefl _ hc
-      · omega
-    rw [hst, Store.get_erase hI.so, if_neg hne]
-    exact hI.there w (List.mem_cons_of_mem _ hwr) hwk
+    {p : Prev} {live gone : Bytes} {st : CompState} (hI : WInv recs k done (r :: rs) p live gone st)
+    {st' : CompState} {p' : Prev} {live' gone' : Bytes} (hp' : p'.rev < 2 ^ 64)
+    (hlf : st'.lastFailed = st.lastFailed) (hso : Store.Sorted st'.store)
+    (hmono : ∀ b, st.store.get b = none → st'.store.get b = none)
+    (hother : r.key ≠ k → (∀ b, (∀ n, n < 2 ^ 64 → b ≠ encode r.key n) → st'.store.get b = st.store.get b) ∧
+      (live' = live ∨ live' = r.key) ∧ (gone' = gone ∨ gone' = r.key))
+    (hself : r.key = k → (∀ w ∈ done, w.key = k → st.store.get w.ik = none) →
+      (∀ w ∈ r :: rs, w.key = k → st.store.get w.ik = some w.val) → live ≠ k → gone ≠ k →
+      (∀ w ∈ recs, w.key = k → st'.store.get w.ik = none) ∨
+      (st'.store.get r.ik = none ∧ (∀ w ∈ rs, w.key = k → st'.store.get w.ik = some w.val) ∧
+        live' = live ∧ gone' = gone)) :
+    WInv recs k (done ++ [r]) rs p' live' gone' st' := by
+  refine ⟨hlf ▸ hI.lf, hso, hp', ?_⟩
+  rcases hI.alt with hL | ⟨hg, ht, hlv, hgn⟩
+  · exact .inl (fun w hwm hwk => hmono _ (hL w hwm hwk))
+  · by_cases hrk : r.key = k
+    · rcases hself hrk hg ht hlv hgn with h | ⟨h1, h2, h3, h4⟩
+      · exact .inl h
+      · right
+        refine ⟨?_, h2, h3 ▸ hlv, h4 ▸ hgn⟩
+        intro w hwd hwk
+        rcases List.mem_append.1 hwd with h | h
+        · exact hmono _ (hg w h hwk)
+        · simp only [List.mem_singleton] at h; subst h; exact h1
+    · obtain ⟨hsame, hl, hgo⟩ := hother hrk
+      have hnt : ∀ w ∈ recs, w.key = k → st'.store.get w.ik = st.store.get w.ik := by
+        intro w hwm hwk
+        apply hsame
+        intro n hn e
+        rw [hw w hwm] at e
+        exact hrk ((encode_inj (hk w hwm).2 hn e).1.symm.trans hwk)
+      right
+      refine ⟨?_, ?_, ?_, ?_⟩
+      · intro w hwd hwk
+        rcases List.mem_append.1 hwd with h | h
+        · exact hmono _ (hg w h hwk)
+        · simp only [List.mem_singleton] at h; subst h; exact absurd hwk hrk
+      · intro w hwr hwk
+        rw [hnt w (by rw [hsplit]; simp [hwr]) hwk]
+        exact ht w (List.mem_cons_of_mem _ hwr) hwk
+      · rcases hl with h | h <;> rw [h]
+        · exact hlv
+        · exact hrk
+      · rcases hgo with h | h <;> rw [h]
+        · exact hgn
+        · exact hrk
+
+/-- single-record deletes that name only keys of `r.key` -/
+theorem runDeletes_same_off_key (mask : Nat → DelOutcome) (acts : List Act) (st : CompState)
+    (hso : Store.Sorted st.store) {key : Bytes}
+    (hacts : ∀ a ∈ acts, ∀ ik, actTarget a = some ik → ∃ n, n < 2 ^ 64 ∧ ik = encode key n) :
+    ∀ b, (∀ n, n < 2 ^ 64 → b ≠ encode key n) → (runDeletes mask st acts).store.get b = st.store.get b := by
+  intro b hb
+  apply runDeletes_get_of_not_target mask acts st hso
+  intro a ha htgt
+  obtain ⟨n, hn, e⟩ := hacts a ha _ htgt
+  exact hb n hn e
 
 /-- **Wholly, for the whole pass.** An Event whose revision record and versions all lie at or below the timeout
-revision, in a pass all of whose delete calls succeed: no record of it is left. -/
+revision, in a pass all of whose calls succeed: no record of it is left. -/
 theorem pass_removes_expired (hs : SortedRecs recs) (hw : WellKeyed recs)
     (hk : ∀ r ∈ recs, Alphabet r.key ∧ r.rev < 2 ^ 64)
     (hon : c.supportTTL = false) (hT : c.timeout ≠ 0) (hok : ∀ i, mask i = .ok)
     {k : Bytes} (hev : isEventKey c k = true)
     (hidx : ∀ i ∈ recs, i.key = k → i.rev = 0 → 8 ≤ i.val.length ∧ fromBE (i.val.take 8) ≤ c.timeout)
-    (hver : ∀ w ∈ recs, w.key = k → w.rev ≤ c.timeout) (rs : List Rec) :
-    ∀ (done : List Rec) (p : Prev) (live : Bytes) (st : CompState), recs = done ++ rs →
-      WInv k done rs p live st →
-      ∀ w ∈ recs, w.key = k → (passLoop c mask p live st rs).2.store.get w.ik = none := by
+    (hver : ∀ w ∈ recs, w.key = k → w.rev ≤ c.timeout)
+    (hmax : ∀ w ∈ recs, w.key = k → w.rev < 2 ^ 64 - 1) (rs : List Rec) :
+    ∀ (done : List Rec) (p : Prev) (live gone : Bytes) (st : CompState), recs = done ++ rs →
+      WInv recs k done rs p live gone st →
+      ∀ w ∈ recs, w.key = k → (passLoop c mask recs p live gone st rs).2.store.get w.ik = none := by
   induction rs with
   | nil =>
-    intro done p live st hsplit hI w hwm hwk
+    intro done p live gone st hsplit hI w hwm hwk
     simp only [passLoop]
-    exact hI.gone w (by simpa [hsplit] using hwm) hwk
+    rcases hI.alt with h | ⟨h, _⟩
+    · exact h w hwm hwk
+    · exact h w (by simpa [hsplit] using hwm) hwk
   | cons r rs ih =>
-    intro done p live st hsplit hI
+    intro done p live gone st hsplit hI
+    have hrm : r ∈ recs := by rw [hsplit]; simp
+    have hsplit' : recs = (done ++ [r]) ++ rs := by rw [hsplit]; simp
+    have hrik : r.ik = encode r.key r.rev := hw r hrm
+    have hpw : (r :: rs).Pairwise recLt := by rw [hsplit] at hs; exact (List.pairwise_append.1 hs).2.1
+    have hoff : ¬ (c.supportTTL || c.timeout == 0) = true := by simp [hon, hT]
+    have hnotskip : (decide (st.lastFailed.length > 0) && st.lastFailed == r.key) = false := by simp [hI.lf]
+    -- the versions to come of `k` are not `r`
+    have hne_ik : ∀ w ∈ rs, w.ik ≠ r.ik := by
+      intro w hwr e
+      have hwm : w ∈ recs := by rw [hsplit]; simp [hwr]
+      rw [hw w hwm, hw r hrm] at e
+      obtain ⟨e1, e2⟩ := encode_inj (hk w hwm).2 (hk r hrm).2 e
+      rcases (List.pairwise_cons.1 hpw).1 w hwr with hc | ⟨_, hc⟩
+      · rw [e1] at hc; exact cmp_irrefl _ hc
+      · omega
+    -- a successful single delete of `r` itself
+    have hdel_self : ∀ st' : CompState, st'.store = st.store.erase r.ik →
+        (∀ w ∈ r :: rs, w.key = k → st.store.get w.ik = some w.val) →
+        st'.store.get r.ik = none ∧ (∀ w ∈ rs, w.key = k → st'.store.get w.ik = some w.val) := by
+      intro st' hst ht
+      refine ⟨by rw [hst, Store.get_erase hI.so]; simp, fun w hwr hwk => ?_⟩
+      rw [hst, Store.get_erase hI.so, if_neg (hne_ik w hwr)]
+      exact ht w (List.mem_cons_of_mem _ hwr) hwk
+    have hmono_del : ∀ a : Act, ∀ b, st.store.get b = none → (runDelete mask st a).store.get b = none :=
+      fun a b hb => runDeletes_get_none_mono mask [a] st hI.so hb
+    rw [passLoop_cons]
+    rcases expiry_cases c live gone r with h0 | ⟨_, _, hevr, ⟨h0, hr0, hlen⟩ | ⟨h0, hr0, hlen, hle⟩ |
+        ⟨h0, hr0, hlen, hgt⟩ | ⟨h0, hrne, hg⟩ | ⟨h0, hrne, hle, hnl, hng⟩⟩
+    · -- the ordinary rules: never for a record of `k` that is still there
+      rw [h0]
+      simp only
+      refine ih _ _ _ _ _ hsplit' (winv_step hw hk hsplit hI ?_ (runDeletes_ok_lastFailed hok _ _)
+        (runDeletes_sorted mask _ st hI.so) (fun b hb => runDeletes_get_none_mono mask _ st hI.so hb) ?_ ?_)
+      · rcases workerStep_rev_cases c p r with h | h <;> rw [h]
+        · exact hI.p64
+        · exact (hk r hrm).2
+      · intro _
+        exact ⟨runDeletes_same_off_key mask _ st hI.so (workerStep_targets_key c p r (hk r hrm).2 hI.p64 hrik),
+          .inl rfl, .inl rfl⟩
+      · intro hrk _ _ hlv hgn
+        exfalso
+        have hev' : isEventKey c r.key = true := hrk ▸ hev
+        by_cases hr0 : r.rev = 0
+        · exact expiry_idx_ne_no hon hT hev' hr0 live gone h0
+        · have : expiry c live gone r = .ver := by
+            unfold expiry
+            rw [if_neg hoff, if_pos hev', if_neg (by simp [hr0]), if_neg (by simp [hrk]; exact fun h => hgn h.symm),
+              if_pos (by simp [hrk]; exact ⟨hver r hrm hrk, fun h => hlv h.symm⟩)]
+          rw [this] at h0; cases h0
+    · -- panic: not for the revision record of `k` (it is well-formed)
+      rw [h0]
+      simp only
+      refine ih _ _ _ _ _ hsplit' (winv_step (st' := st) hw hk hsplit hI hI.p64 rfl hI.so (fun _ h => h) ?_ ?_)
+      · intro _; exact ⟨fun _ _ => rfl, .inl rfl, .inl rfl⟩
+      · intro hrk _ _ _ _
+        have := (hidx r hrm hrk hr0).1; omega
+    · -- the batch at an expired revision record
+      rw [h0]
+      simp only
+      refine ih _ _ _ _ _ hsplit' (winv_step hw hk hsplit hI hI.p64 (runExpire_ok_lastFailed hok _ _ _ _ _)
+        (runExpire_sorted mask st _ _ _ _ hI.so)
+        (fun b hb => runExpire_get_none_mono mask st _ _ _ _ hI.so hb) ?_ ?_)
+      · intro _
+        refine ⟨fun b hb => ?_, ?_, ?_⟩
+        · apply runExpire_get_of_not_target mask st _ _ _ _ hI.so
+          intro hmem
+          obtain ⟨n, hn, e⟩ := batch_keys hw hk hrm hmem
+          exact hb n hn e
+        · split
+          · exact .inr rfl
+          · exact .inl rfl
+        · split
+          · exact .inl rfl
+          · exact .inr rfl
+      · intro hrk _ ht _ _
+        left
+        have hget : st.store.get r.ik = some r.val := ht r (by simp) hrk
+        rcases runExpire_cases mask st r.ik r.val (versionsOf r.key recs) r.key with
+          ⟨h1, _, _⟩ | ⟨_, _, _, _, h3, _⟩ | ⟨_, h2, _⟩
+        · simp [skipped, hI.lf] at h1
+        · intro w hwm hwk
+          rw [h3]
+          have := eraseAll_get (r.ik :: versionsOf r.key recs) hI.so w.ik
+          simp only [List.foldl_cons] at this
+          rw [this, if_pos]
+          rw [hrk]
+          exact mem_batch_of_key hs hrm hrk hr0 hmax hwm hwk
+        · simp [expireErr, hnotskip, hok, hget] at h2
+    · -- a young revision record: not `k`'s
+      rw [h0]
+      simp only
+      refine ih _ _ _ _ _ hsplit' (winv_step hw hk hsplit hI ?_ (runDeletes_ok_lastFailed hok _ _)
+        (runDeletes_sorted mask _ st hI.so) (fun b hb => runDeletes_get_none_mono mask _ st hI.so hb) ?_ ?_)
+      · rcases workerStep_rev_cases c p r with h | h <;> rw [h]
+        · exact hI.p64
+        · exact (hk r hrm).2
+      · intro _
+        exact ⟨runDeletes_same_off_key mask _ st hI.so (workerStep_targets_key c p r (hk r hrm).2 hI.p64 hrik),
+          .inr rfl, .inl rfl⟩
+      · intro hrk _ _ _ _
+        have := (hidx r hrm hrk hr0).2; omega
+    · -- a version of the gone key: no call
+      rw [h0]
+      simp only
+      refine ih _ _ _ _ _ hsplit' (winv_step (st' := st) hw hk hsplit hI hI.p64 rfl hI.so (fun _ h => h) ?_ ?_)
+      · intro _; exact ⟨fun _ _ => rfl, .inl rfl, .inl rfl⟩
+      · intro hrk _ _ _ hgn
+        exact absurd (hg.symm.trans hrk) hgn
+    · -- a version deleted on its own
+      rw [h0]
+      simp only
+      have hst : (runDelete mask st (.del r.ik r.key)).store = st.store.erase r.ik := by
+        simp [runDelete, hnotskip, hok]
+      refine ih _ _ _ _ _ hsplit' (winv_step hw hk hsplit hI hI.p64 (runDelete_ok_lastFailed hok _ _)
+        (hst ▸ Store.sorted_erase hI.so _) (hmono_del _) ?_ ?_)
+      · intro _
+        refine ⟨fun b hb => ?_, .inl rfl, .inl rfl⟩
+        rw [hst, Store.get_erase hI.so, if_neg (fun e => hb r.rev (hk r hrm).2 (e.trans hrik))]
+      · intro _ _ ht _ _
+        exact .inr ⟨(hdel_self _ hst ht).1, (hdel_self _ hst ht).2, rfl, rfl⟩
+
+end whole
+
+/-! ### all or nothing, under every failure mask -/
+
+section atomic
+variable {recs : List Rec} {mask : Nat → DelOutcome} {c : WCfg}
+
+/-- **All or nothing, for the whole pass.** The Event `k` has the EXPIRED revision record `i` in the snapshot. Whatever
+the engine answers to the calls of the pass (and wherever the pass is cut short: a crash is the mask that fails every
+call from some point on): from any point of the loop at which `k` is untouched-or-gone on, at the end either no
+record of `k` is left, or its revision record is still what it was — nothing of `k` is ever removed WITHOUT its
+revision record: the only call that names the revision record of an expired Event is the batch, and the batch names
+every version the snapshot shows. -/
+theorem pass_all_or_nothing (hs : SortedRecs recs) (hw : WellKeyed recs)
+    (hk : ∀ r ∈ recs, Alphabet r.key ∧ r.rev < 2 ^ 64)
+    (hon : c.supportTTL = false) (hT : c.timeout ≠ 0)
+    {k : Bytes} (hev : isEventKey c k = true) {i : Rec} (hi : i ∈ recs) (hik : i.key = k) (hi0 : i.rev = 0)
+    (h8 : 8 ≤ i.val.length) (hexp : fromBE (i.val.take 8) ≤ c.timeout)
+    (hmax : ∀ w ∈ recs, w.key = k → w.rev < 2 ^ 64 - 1) (rs : List Rec) :
+    ∀ (done : List Rec) (p : Prev) (live gone : Bytes) (st : CompState), recs = done ++ rs →
+      Store.Sorted st.store → p.rev < 2 ^ 64 →
+      ((∀ w ∈ recs, w.key = k → st.store.get w.ik = none) ∨ st.store.get i.ik = some i.val) →
+      ((∀ w ∈ recs, w.key = k → (passLoop c mask recs p live gone st rs).2.store.get w.ik = none) ∨
+        (passLoop c mask recs p live gone st rs).2.store.get i.ik = some i.val) := by
+  have hiik : i.ik = encode k 0 := by rw [hw i hi, hik, hi0]
+  induction rs with
+  | nil =>
+    intro done p live gone st _ _ _ h
+    simpa only [passLoop] using h
+  | cons r rs ih =>
+    intro done p live gone st hsplit hso hp64 halt
     have hrm : r ∈ recs := by rw [hsplit]; simp
     have hsplit' : recs = (done ++ [r]) ++ rs := by rw [hsplit]; simp
     have hrik : r.ik = encode r.key r.rev := hw r hrm
     have hoff : ¬ (c.supportTTL || c.timeout == 0) = true := by simp [hon, hT]
-    have hnotskip : (decide (st.lastFailed.length > 0) && st.lastFailed == r.key) = false := by simp [hI.lf]
+    -- a step whose new state keeps what is gone gone, and the revision record of `k` when it names no key
+    -- `encode k 0`
+    have step : ∀ (st' : CompState), Store.Sorted st'.store →
+        (∀ b, st.store.get b = none → st'.store.get b = none) →
+        (st.store.get i.ik = some i.val →
+          (∀ w ∈ recs, w.key = k → st'.store.get w.ik = none) ∨ st'.store.get i.ik = some i.val) →
+        ((∀ w ∈ recs, w.key = k → st'.store.get w.ik = none) ∨ st'.store.get i.ik = some i.val) := by
+      intro st' _ hmono hkeep
+      rcases halt with h | h
+      · exact .inl (fun w hwm hwk => hmono _ (h w hwm hwk))
+      · exact hkeep h
+    -- the single-record deletes of the ordinary rules never name the revision record of `k`… unless `r` is it
+    have hord : r.ik ≠ i.ik → ∀ a ∈ (workerStep c p r).1, actTarget a ≠ some i.ik := by
+      intro hne a ha htgt
+      rcases workerStep_mem c p r ha with hn | ⟨rfl, hkey, hpos⟩ | rfl | rfl
+      · rw [emitPrev_target hn] at htgt; cases htgt
+      · simp only [actTarget, Option.some.injEq] at htgt
+        rw [hiik] at htgt
+        have := (encode_inj hp64 (by decide) htgt).2
+        omega
+      · simp only [actTarget, Option.some.injEq] at htgt; exact hne htgt
+      · simp only [actTarget, Option.some.injEq] at htgt; exact hne htgt
+    have hri : r.key = k → r.rev = 0 → r = i := fun h1 h2 =>
+      recs_unique hs hrm hi (h1.trans hik.symm) (by omega)
+    have hne_of : (r.key ≠ k ∨ r.rev ≠ 0) → r.ik ≠ i.ik := by
+      intro h e
+      rw [hrik, hiik] at e
+      obtain ⟨e1, e2⟩ := encode_inj (hk r hrm).2 (by decide) e
+      rcases h with h | h
+      · exact h e1
+      · exact h e2
     rw [passLoop_cons]
-    by_cases hrk : r.key = k
-    · have hget : st.store.get r.ik = some r.val := hI.there r (by simp) hrk
-      by_cases hr0 : r.rev = 0
-      · -- the revision record: expired, its compare-and-delete succeeds, nothing is remembered
-        obtain ⟨h8, hle⟩ := hidx r hrm hrk hr0
-        have hex : expiry c live r = .idx := by
-          unfold expiry
-          rw [if_neg hoff, if_pos (hrk ▸ hev), if_pos (by simp [hr0]), if_neg (by omega), if_pos hle]
-        have herr : delcurErr mask st r.ik r.val r.key = false := by
-          simp [delcurErr, hnotskip, hok, hget]
-        rw [hex]
-        simp only [herr, Bool.false_eq_true, if_false]
-        refine ih _ _ _ _ hsplit' (winv_self hs hw hk hsplit hI ?_ ?_)
-        · simp [runDelete, hnotskip, hok, hget]
-        · simp [runDelete, hnotskip, hok, hget]
-      · -- a version: at or below the timeout revision, key not remembered
-        have hex : expiry c live r = .ver := by
-          unfold expiry
-          have hne : r.key ≠ live := by rw [hrk]; exact fun h => hI.lv h.symm
-          rw [if_neg hoff, if_pos (hrk ▸ hev), if_neg (by simp [hr0]),
-            if_pos (by simp [hne]; exact hver r hrm hrk)]
-        rw [hex]
-        simp only
-        refine ih _ _ _ _ hsplit' (winv_self hs hw hk hsplit hI ?_ ?_)
-        · simp [runDelete, hnotskip, hok]
-        · simp [runDelete, hnotskip, hok]
-    · -- a record of another key
-      have hexp : ∀ a : Act, (a = .panic ∨ a = .delcur r.ik r.val r.key ∨ a = .del r.ik r.key) →
-          ∀ a' ∈ [a], ∀ ik, actTarget a' = some ik → ∃ n, n < 2 ^ 64 ∧ ik = encode r.key n := by
-        intro a ha a' ha' ik h
-        simp only [List.mem_singleton] at ha'; subst ha'
-        rcases ha with rfl | rfl | rfl
-        · cases h
-        · simp only [actTarget, Option.some.injEq] at h; exact ⟨r.rev, (hk r hrm).2, by rw [← h, hrik]⟩
-        · simp only [actTarget, Option.some.injEq] at h; exact ⟨r.rev, (hk r hrm).2, by rw [← h, hrik]⟩
-      cases hex : expiry c live r with
-      | panic =>
-        simp only
-        have hstep := winv_other (mask := mask) (acts := [.panic]) (live' := live) hw hk hok hsplit hrk hI hI.p64
-          (.inl rfl) (hexp _ (.inl rfl))
-        exact ih _ p live st hsplit' hstep
-      | idx =>
-        simp only
-        refine ih _ _ _ _ hsplit' (winv_other (acts := [.delcur r.ik r.val r.key]) hw hk hok hsplit hrk hI hI.p64
-          ?_ (hexp _ (.inr (.inl rfl))))
-        split
-        · exact .inr rfl
-        · exact .inl rfl
-      | ver =>
-        simp only
-        exact ih _ _ _ _ hsplit' (winv_other (acts := [.del r.ik r.key]) hw hk hok hsplit hrk hI hI.p64
-          (.inl rfl) (hexp _ (.inr (.inr rfl))))
-      | noLive =>
-        simp only
-        refine ih _ _ _ _ hsplit' (winv_other hw hk hok hsplit hrk hI ?_ (.inr rfl) ?_)
-        · rcases workerStep_rev_cases c p r with h | h <;> rw [h]
-          · exact hI.p64
-          · exact (hk r hrm).2
-        · exact workerStep_targets_key c p r (hk r hrm).2 hI.p64 hrik
-      | no =>
-        simp only
-        refine ih _ _ _ _ hsplit' (winv_other hw hk hok hsplit hrk hI ?_ (.inl rfl) ?_)
-        · rcases workerStep_rev_cases c p r with h | h <;> rw [h]
-          · exact hI.p64
-          · exact (hk r hrm).2
-        · exact workerStep_targets_key c p r (hk r hrm).2 hI.p64 hrik
+    rcases expiry_cases c live gone r with h0 | ⟨_, _, hevr, ⟨h0, hr0, hlen⟩ | ⟨h0, hr0, hlen, hle⟩ |
+        ⟨h0, hr0, hlen, hgt⟩ | ⟨h0, hrne, hg⟩ | ⟨h0, hrne, hle, hnl, hng⟩⟩
+    · -- the ordinary rules
+      rw [h0]
+      simp only
+      have hne : r.ik ≠ i.ik := by
+        apply hne_of
+        by_cases hrk : r.key = k
+        · right; intro hr0
+          exact expiry_idx_ne_no hon hT (hrk ▸ hev) hr0 live gone h0
+        · exact .inl hrk
+      refine ih _ _ _ _ _ hsplit' (runDeletes_sorted mask _ st hso) ?_
+        (step _ (runDeletes_sorted mask _ st hso) (fun b hb => runDeletes_get_none_mono mask _ st hso hb) ?_)
+      · rcases workerStep_rev_cases c p r with h | h <;> rw [h]
+        · exact hp64
+        · exact (hk r hrm).2
+      · intro hget
+        right
+        rw [runDeletes_get_of_not_target mask _ st hso (hord hne)]; exact hget
+    · -- panic: no call
+      rw [h0]
+      simp only
+      exact ih _ _ _ _ _ hsplit' hso hp64 halt
+    · -- the batch at an expired revision record
+      rw [h0]
+      simp only
+      refine ih _ _ _ _ _ hsplit' (runExpire_sorted mask st _ _ _ _ hso) hp64
+        (step _ (runExpire_sorted mask st _ _ _ _ hso)
+          (fun b hb => runExpire_get_none_mono mask st _ _ _ _ hso hb) ?_)
+      intro hget
+      by_cases hrk : r.key = k
+      · -- the batch of `k` itself: all of it, or nothing
+        have hri' : r = i := hri hrk hr0
+        rcases runExpire_store mask st r.ik r.val (versionsOf r.key recs) r.key with e | e
+        · right; rw [e]; exact hget
+        · left
+          intro w hwm hwk
+          rw [e, eraseAll_get _ hso, if_pos]
+          rw [hrk, hri']
+          exact mem_batch_of_key hs hi hik hi0 hmax hwm hwk
+      · -- the batch of another Event names none of `k`'s records
+        right
+        rw [runExpire_get_of_not_target mask st _ _ _ _ hso]
+        · exact hget
+        · intro hmem
+          obtain ⟨n, hn, e⟩ := batch_keys hw hk hrm hmem
+          rw [hiik] at e
+          exact hrk ((encode_inj (by decide) hn e).1).symm
+    · -- a young revision record: not `k`'s; the ordinary rules
+      rw [h0]
+      simp only
+      have hne : r.ik ≠ i.ik := by
+        apply hne_of
+        left; intro hrk
+        have := hri hrk hr0
+        subst this; omega
+      refine ih _ _ _ _ _ hsplit' (runDeletes_sorted mask _ st hso) ?_
+        (step _ (runDeletes_sorted mask _ st hso) (fun b hb => runDeletes_get_none_mono mask _ st hso hb) ?_)
+      · rcases workerStep_rev_cases c p r with h | h <;> rw [h]
+        · exact hp64
+        · exact (hk r hrm).2
+      · intro hget
+        right
+        rw [runDeletes_get_of_not_target mask _ st hso (hord hne)]; exact hget
+    · -- a version of the gone key: no call
+      rw [h0]
+      simp only
+      exact ih _ _ _ _ _ hsplit' hso hp64 halt
+    · -- a version deleted on its own
+      rw [h0]
+      simp only
+      have hne : r.ik ≠ i.ik := hne_of (.inr hrne)
+      have hso' : Store.Sorted (runDelete mask st (.del r.ik r.key)).store :=
+        runDeletes_sorted mask [.del r.ik r.key] st hso
+      refine ih _ _ _ _ _ hsplit' hso' hp64
+        (step _ hso' (fun b hb => runDeletes_get_none_mono mask [.del r.ik r.key] st hso hb) ?_)
+      intro hget
+      right
+      have := runDeletes_get_of_not_target mask [.del r.ik r.key] st hso (b := i.ik)
+        (fun a ha => by
+          simp only [List.mem_singleton] at ha; subst ha
+          simp only [actTarget, ne_eq, Option.some.injEq]; exact hne)
+      rw [show runDelete mask st (.del r.ik r.key) = runDeletes mask st [.del r.ik r.key] from rfl, this]
+      exact hget
 
-end whole
+end atomic
 
 end KB.ExpirePass
